@@ -614,6 +614,30 @@ fn c19_attributes(out: &mut Out) {
     // 大安木 留连水 速喜火 赤口金 小吉木 空亡土
     chk!(out, format!("minor_ren_element:{}", i), r.get_element().get_index(), [sp::WOOD, sp::WATER, sp::FIRE, sp::METAL, sp::WOOD, sp::EARTH][i as usize]);
   }
+  // eight-character derived signs: 胎元 = month stem + 1, month branch + 3; 胎息 = the stem / branch that combine (合) with the
+  // day pillar; 命宫 / 身宫: a palace branch whose stem is found from the year stem like a month stem (Five Tigers)
+  {
+    use tyme4rs::tyme::eightchar::EightChar;
+    for p in 0..60i64 {
+      let c = SixtyCycle::from_index(p as isize);
+      let e = EightChar::from_sixty_cycle(SixtyCycle::from_index(0), c.clone(), c.clone(), SixtyCycle::from_index(0));
+      chk!(out, format!("fetal_origin:{}", p), e.get_fetal_origin().get_index(), sp::pillar_index(sp::md(p % 10 + 1, 10), sp::md(p % 12 + 3, 12)));
+      chk!(out, format!("fetal_breath:{}", p), e.get_fetal_breath().get_index(), sp::pillar_index(sp::stem_combine_partner(p % 10), sp::six_combine(p % 12).0));
+    }
+    for ys in 0..10i64 { for mb in 0..12i64 { for hb in 0..12i64 {
+      let year = SixtyCycle::from_index(sp::pillar_index(ys, ys % 2) as isize);
+      let month = SixtyCycle::from_index(sp::pillar_index(mb % 2, mb) as isize);
+      let hour = SixtyCycle::from_index(sp::pillar_index(hb % 2, hb) as isize);
+      let e = EightChar::from_sixty_cycle(year, month, SixtyCycle::from_index(0), hour);
+      for (tag, g) in [("own_sign", guard(|| e.get_own_sign().get_index() as i64)), ("body_sign", guard(|| e.get_body_sign().get_index() as i64))] {
+        out.evaluations += 1;
+        match g {
+          Some(pi) => { let (st, br) = (pi % 10, pi % 12); if st != sp::md(sp::five_tigers(ys) + sp::md(br - 2, 12), 10) { out.fail(format!("{}:{}:{}:{}", tag, ys, mb, hb), format!("pillar {} does not follow the Five-Tigers rule of year stem {}", pi, ys)); } }
+          None => out.fail(format!("{}:{}:{}:{}", tag, ys, mb, hb), "panic (illegal stem/branch pair)".into()),
+        }
+      }
+    } } }
+  }
   // zodiac signs over all 366 month-day combinations
   for m in 1..=12i64 {
     for d in 1..=31i64 {
